@@ -515,6 +515,23 @@ func panKeygenBody(variant int, key string) (pre, post string) {
 	}
 }
 
+// statusFault: fault "st:CODE" — the request at FaultAt is answered with status CODE once, the next one
+// normally (a client that retries succeeds); "st:CODE:stay" — every request from FaultAt on is answered
+// with CODE (a client that retries fails again).
+func statusFault(c *runCase, i int) (c17Reply, bool) {
+	if !strings.HasPrefix(c.Fault, "st:") || c.FaultAt < 0 {
+		return c17Reply{}, false
+	}
+	parts := strings.Split(c.Fault, ":")
+	stay := len(parts) > 2 && parts[2] == "stay"
+	if i == c.FaultAt || stay && i > c.FaultAt {
+		return c17Reply{Kind: "status", A: parts[1], B: "service not ready\n"}, true
+	}
+	return c17Reply{}, false
+}
+
+var loginStatusCodes = []string{"401", "403", "404", "429", "500", "502", "503", "504"}
+
 const nsxInvalidMsg = "invalid character 'i' looking for beginning of value"
 
 const nsxNetspoc = `{
@@ -642,6 +659,9 @@ func execRun(tmp string, c *runCase, no int, scale int) *runOutcome {
 					rep = c17Reply{Kind: "fail", A: panHAPassive, B: ""}
 				}
 			}
+			if r, ok := statusFault(c, i); ok {
+				rep = r
+			}
 			return rep, nil
 		})
 	case "NSX":
@@ -666,6 +686,9 @@ func execRun(tmp string, c *runCase, no int, scale int) *runOutcome {
 				case "invalid":
 					rep = c17Reply{Kind: "fail", A: "invalid", B: nsxInvalidMsg}
 				}
+			}
+			if r, ok := statusFault(c, i); ok {
+				rep, hdr = r, nil
 			}
 			return rep, hdr
 		})
@@ -1134,7 +1157,9 @@ func (e *c17Env) compareNSX(c *runCase, o *runOutcome) {
 	case "terr":
 		login = "terr:" + hx(lg.A) + ":-"
 	case "status":
-		login = "resp:" + hx("500 Internal Server Error") + ":" + hx("500")
+		code := 500
+		fmt.Sscanf(lg.A, "%d", &code)
+		login = "resp:" + hx(fmt.Sprintf("%d %s", code, http.StatusText(code))) + ":" + hx(fmt.Sprint(code))
 	default:
 		login = "resp:" + hx("200 OK") + ":" + hx("200")
 	}
@@ -1652,6 +1677,23 @@ func (e *c17Env) wholeRuns() {
 			run(&runCase{Dev: "PAN-OS", Cmd: cmd, FaultAt: 1 + (i+ci)%4, Fault: Pick(rng, []string{"eof", "status", "trunc"}), Variant: i, KeyKind: kk})
 		}
 	}
+	// the login request (and the one behind it) answered with every status a client might retry on —
+	// once (a retry would succeed) and for good (a retry fails again); transport errors at the login
+	// are in the fault matrix above (eof, trunc; timeout below)
+	for ci, code := range loginStatusCodes {
+		for di, dev := range []string{"NSX", "PAN-OS"} {
+			for si, suffix := range []string{"", ":stay"} {
+				for pos := 0; pos < 2; pos++ {
+					if !thorough && pos == 1 && (ci+di+si)%2 == 1 {
+						continue
+					}
+					run(&runCase{Dev: dev, Cmd: runCmds[(ci+di+si+pos)%len(runCmds)], FaultAt: pos, Fault: "st:" + code + suffix, Variant: ci})
+				}
+			}
+		}
+	}
+	run(&runCase{Dev: "NSX", Cmd: "drc", FaultAt: 0, Fault: "timeout"})
+	run(&runCase{Dev: "PAN-OS", Cmd: "do-approve compare", FaultAt: 0, Fault: "timeout"})
 	// the keygen answer spells the key element in every form encoding/xml accepts
 	for i := range keyElementForms("0123456789") {
 		if !thorough && i%3 != int(rng.Intn(3)) {
